@@ -371,7 +371,7 @@ func domProofAppend(r *engine.Run, rule string) {
 // ---- AGREE-decode: what DeserializeNode rebuilds from a branch / shared prefix -------
 
 func agreeDecode(r *engine.Run, rule string) {
-	f := r.Fn(rule, pkgWMPT, "", "DeserializeNode")
+	f := branchDecoder(r, rule)
 	if f == nil {
 		return
 	}
@@ -1014,7 +1014,6 @@ func orderErrStore(r *engine.Run, rule string) {
 	}
 }
 
-
 // ---- AGREE-copyroot: a snapshot keeps node kinds above the collapse level ------------------
 
 // CopyRoot(level, collapseLevel) copies the trie down to the collapse level and
@@ -1295,5 +1294,161 @@ func refShortRef(r *engine.Run, rule string) {
 	}
 	if n < 4 {
 		r.Anchor(rule, fmt.Errorf("unresolved anchor: only %d hash references built in the weighted trie", n))
+	}
+}
+
+// branchDecoder: the function that rebuilds a branch from its persisted form:
+// DeserializeNode, or the same-package helper it hands the branch arm to (found
+// by structure: the one that stores into the child slots of a routingNode).
+func branchDecoder(r *engine.Run, rule string) *ssa.Function {
+	f := r.Fn(rule, pkgWMPT, "", "DeserializeNode")
+	if f == nil {
+		return nil
+	}
+	storesSlots := func(g *ssa.Function) bool {
+		found := false
+		engine.Instrs(g, func(in ssa.Instruction) {
+			st, ok := in.(*ssa.Store)
+			if !ok {
+				return
+			}
+			if ia, ok := st.Addr.(*ssa.IndexAddr); ok {
+				if fa, ok := ia.X.(*ssa.FieldAddr); ok && engine.FieldOf(fa) != nil && engine.FieldOf(fa).Name() == "Children" && isNamedPtr(fa.X.Type(), "routingNode") {
+					found = true
+				}
+			}
+		})
+		return found
+	}
+	if storesSlots(f) {
+		return f
+	}
+	var out *ssa.Function
+	engine.Instrs(f, func(in ssa.Instruction) {
+		if c, ok := in.(*ssa.Call); ok {
+			if g := c.Call.StaticCallee(); g != nil && g != f && g.Pkg == f.Pkg && len(g.Blocks) > 0 && storesSlots(g) && out == nil {
+				out = g
+				r.Touch(g)
+			}
+		}
+	})
+	if out != nil {
+		return out
+	}
+	return f
+}
+
+// ---- FRESH-keybuf: a node's key is never the base of an append ------------------------------
+
+// Keys are cut out of one array: a split gives the upper shared-prefix node
+// key[:p] and the new leaf key[p+1:] of the same 64-nibble array, so the upper
+// slice has spare capacity over the lower one's bytes. An append onto a node's
+// key (or onto a slice that may be one, such as a prefix argument that was set
+// to n.key) writes into the other node's key.
+//
+// Rule: in the weighted trie a value loaded from a node's key field is never
+// the base of an append, and is never passed for a parameter that the callee
+// appends onto.
+func freshKeyBuf(r *engine.Run, rule string) {
+	funcs := funcsOfPkg(r, pkgWMPT)
+	// parameters used as an append base (through phis)
+	appended := map[*ssa.Function]map[int]bool{}
+	baseOf := func(f *ssa.Function) map[ssa.Value]bool {
+		out := map[ssa.Value]bool{}
+		engine.Instrs(f, func(in ssa.Instruction) {
+			c, ok := in.(*ssa.Call)
+			if !ok {
+				return
+			}
+			if b, ok := c.Call.Value.(*ssa.Builtin); ok && b.Name() == "append" && isByteSlice(c.Call.Args[0].Type()) {
+				seen := map[ssa.Value]bool{}
+				var walk func(v ssa.Value)
+				walk = func(v ssa.Value) {
+					if seen[v] {
+						return
+					}
+					seen[v] = true
+					out[v] = true
+					if ph, ok := v.(*ssa.Phi); ok {
+						for _, e := range ph.Edges {
+							walk(e)
+						}
+					}
+				}
+				walk(c.Call.Args[0])
+			}
+		})
+		return out
+	}
+	bases := map[*ssa.Function]map[ssa.Value]bool{}
+	for _, f := range funcs {
+		if len(f.Blocks) == 0 {
+			continue
+		}
+		bases[f] = baseOf(f)
+		for i, p := range f.Params {
+			if bases[f][p] {
+				if appended[f] == nil {
+					appended[f] = map[int]bool{}
+				}
+				appended[f][i] = true
+			}
+		}
+	}
+	n := 0
+	for _, f := range funcs {
+		if len(f.Blocks) == 0 {
+			continue
+		}
+		o := ord{}
+		engine.Instrs(f, func(in ssa.Instruction) {
+			ld, ok := in.(*ssa.UnOp)
+			if !ok {
+				return
+			}
+			b, fld, isF := loadOfField(ld)
+			if !isF || fld != "key" || !isNamedPtr(b.Type(), "shortNode") {
+				return
+			}
+			n++
+			bad := ""
+			if bases[f][ld] {
+				bad = "is the base of an append"
+			}
+			// through phis into call arguments
+			seen := map[ssa.Value]bool{}
+			var follow func(v ssa.Value)
+			follow = func(v ssa.Value) {
+				if seen[v] {
+					return
+				}
+				seen[v] = true
+				for _, ref := range engine.Referrers(v) {
+					switch x := ref.(type) {
+					case *ssa.Phi:
+						if bases[f][x] {
+							bad = "may be the base of an append (through " + x.Name() + ")"
+						}
+						follow(x)
+					case *ssa.Call:
+						g := x.Call.StaticCallee()
+						if g == nil || appended[g] == nil {
+							continue
+						}
+						for i, a := range x.Call.Args {
+							if a == v && appended[g][i] {
+								bad = "is handed to " + fn(g) + " for a parameter that function appends onto"
+							}
+						}
+					}
+				}
+			}
+			follow(ld)
+			r.Check(bad == "", rule, o.next(fn(f)+"|key read"), r.P.Pos(ld.Pos()), "the node's key is copied or compared, never appended onto",
+				"a node's key "+bad+": keys of neighbouring nodes are slices of one array (a split gives the upper node key[:p] and the leaf key[p+1:]), so the append writes into the other node's key - ownership queries name a key that does not exist and a later update of the real key adds a duplicate entry")
+		})
+	}
+	if n < 8 {
+		r.Anchor(rule, fmt.Errorf("unresolved anchor: only %d reads of shared-prefix keys found", n))
 	}
 }
